@@ -11,6 +11,7 @@
                     same sequence (project / merge / fromdict)
   order-filter      marginalize / invert / canonical keep the domain's own attribute order (comprehension over self.attrs
                     filtered by membership)
+  containment       Domain.contains compares attribute names only (not sizes)
   equality          Domain.__eq__ compares the attribute sequences in order, and the sizes
   none-test         an `attrs=None` default meaning "all attributes" is tested by comparison with None, not by truthiness
                     (an empty attribute list is a legal argument and means the empty product)
@@ -27,6 +28,39 @@ from ..srcmodel import AnalysisError, U, calls_in, walk_shallow, names_in
 
 DS = 'src/mbi/dataset.py'
 DOM = 'src/mbi/domain.py'
+
+
+def check_contains(ctx):
+    """Domain.contains(other): every attribute NAME of other is an attribute of self - sizes are not compared (a compressed domain and the
+    original, a merge of two domains recording different sizes, still contain each other's attributes; Factor.expand and the model code assert
+    exactly this).  Accepted: a subset test between the two attribute sets (sets of attrs, dict KEY views, all(a in ..)).  Reported: a test
+    between ITEM views / (name, size) pairs, which also demands equal sizes."""
+    if not ctx.repo.has_func(DOM, 'Domain.contains'):
+        raise AnalysisError('anchor vanished: Domain.contains')
+    fi = ctx.repo.nfunc(DOM, 'Domain.contains')
+    ctx.analysed(fi)
+    o = fi.params[1]
+    rets = [r for r in ast.walk(fi.node) if isinstance(r, ast.Return) and r.value is not None]
+    if len(rets) != 1:
+        raise AnalysisError('Domain.contains: expected one return')
+    t = U(rets[0].value).replace(' ', '')
+
+    def names(w):
+        return ['set(%s.attrs)' % w, 'frozenset(%s.attrs)' % w, '%s.config.keys()' % w, 'set(%s)' % w, 'set(%s.config)' % w, '%s.config.keys()' % w]
+
+    def pairs(w):
+        return ['%s.config.items()' % w, 'set(%s.config.items())' % w, 'set(zip(%s.attrs,%s.shape))' % (w, w)]
+    by_name = ['%s<=%s' % (a, b) for a in names(o) for b in names('self')] + ['%s>=%s' % (b, a) for a in names(o) for b in names('self')] + \
+              ['%s.issubset(%s)' % (a, b) for a in names(o) for b in names('self') + ['self.attrs']] + \
+              ['all(ainself.attrsforain%s.attrs)' % o, 'all(ainselfforain%s)' % o, 'all(ainself.configforain%s.attrs)' % o,
+               'all((ainself.attrsforain%s.attrs))' % o, 'all((ainselfforain%s))' % o]
+    by_pair = ['%s<=%s' % (a, b) for a in pairs(o) for b in pairs('self')] + ['%s>=%s' % (b, a) for a in pairs(o) for b in pairs('self')]
+    if t not in by_name and t not in by_pair:
+        raise AnalysisError('Domain.contains: `%s` is in no recognised form' % U(rets[0].value)[:80])
+    ctx.ob('containment', fi, rets[0], t in by_name,
+           'contains() compares attribute NAMES only; returns `%s`%s' % (U(rets[0].value)[:80], '' if t in by_name else
+           ' - a test between (name, size) pairs: a domain recording another size for a shared attribute (a compressed domain and its original) is '
+           'no longer contained'), construct='Domain.contains')
 
 
 def check_equality(ctx):
@@ -127,6 +161,7 @@ def run(ctx):
     check_bare_names(ctx)
     check_size_bare_name(ctx)
     check_equality(ctx)
+    check_contains(ctx)
     check_sort_and_load(ctx)
 
     # ---- column order on every constructor path ----------------------------------------------------
